@@ -275,6 +275,9 @@ RulesLoop:
 	}
 	// Reset Skip counter at the end of each phase. Skip actions work only within the current processing phase
 	tx.Skip = 0
+	// The same holds for skipAfter: when its marker is not found in the rest of the phase, the
+	// jump ends with the phase instead of silently skipping the rules of the following phases.
+	tx.SkipAfter = ""
 
 	tx.stopWatches[phase] = time.Now().UnixNano() - ts
 	return tx.IsInterrupted()
